@@ -23,7 +23,7 @@ def config_field_order(ctx, ex):
         raise Inconclusive("SyncConfig fields changed: %s" % names)
 
 
-def sym_delta(ctx, ex, nops, maxlit, cap):
+def sym_delta(ctx, ex, nops, maxlit, cap, hash_model="ideal"):
     enums = ctx.enums
     ci, li = enums["DeltaOp"]["Copy"], enums["DeltaOp"]["Literal"]
     names = ctx.struct_fields(ex, "Delta::with_checksum", "Delta")
@@ -42,21 +42,28 @@ def sym_delta(ctx, ex, nops, maxlit, cap):
     n = ex.fresh_int("n_ops", lo=0, hi=nops)
     carr = z3.Array("checksum_preimage", z3.IntSort(), z3.IntSort())
     clen = ex.fresh_int("checksum_preimage_len", lo=0, hi=cap + 1)
+    cbytes = [ex.fresh_int("checksum_byte%d" % i, lo=0, hi=255) for i in range(32)]
     f = {"block_size": VInt(ex.fresh_int("block_size", ty="u32"), "u32"),
          "source_size": VInt(ex.fresh_int("source_size", ty="u64"), "u64"),
          "basis_size": VInt(ex.fresh_int("basis_size", ty="u64"), "u64"),
          "ops": VList(items, n, "DeltaOp"),
-         "checksum": VStruct("StrongHash", [VSeq(carr, I(0), clen, "u8")])}
+         "checksum": VStruct("StrongHash", [VSeq(carr, I(0), clen, "u8")]) if hash_model == "ideal" else
+         VStruct("StrongHash", [VStruct("[array]", [VInt(c, "u8") for c in cbytes])])}
     d = VStruct("Delta", [f[k] for k in names])
-    return d, dict(ops=meta, n=n, carr=carr, clen=clen, f=f)
+    return d, dict(ops=meta, n=n, carr=carr, clen=clen, f=f, cbytes=cbytes)
 
 
-def mk_executor(ctx, bl, nops, maxlit):
+def mk_executor(ctx, bl, nops, maxlit, hash_model="ideal"):
     cap = max(1, nops * max(bl, maxlit))
     ex = ctx.ex(K=2 * nops + 5)
     deltamodels.install(ex, window_cap=1, byte_cap=cap, cand_cap=1)
     patchmodels.install(ex)
     ex.hash_cap = cap + 1
+    ex.hash_model = hash_model
+    if hash_model == "bytes":
+        # the digest is a real [u8; 32]: StrongHash's own code (PartialEq, eq_truncated, from_bytes, as_bytes) runs from MIR
+        for k in ("<StrongHash as PartialEq>::eq", "<StrongHash as PartialEq>::ne", "StrongHash::from_bytes", "StrongHash::as_bytes"):
+            ex.summaries.pop(k, None)
     return ex, cap
 
 
@@ -104,12 +111,12 @@ def seq_eq(a_arr, a_len, b_arr, b_len, cap):
     return z3.And(a_len == b_len, *[z3.Implies(k < a_len, z3.Select(a_arr, k) == z3.Select(b_arr, k)) for k in range(cap)])
 
 
-def c05_obligations(ctx, R, prover, engine, bl, nops, maxlit):
-    ex, cap = mk_executor(ctx, bl, nops, maxlit)
+def c05_obligations(ctx, R, prover, engine, bl, nops, maxlit, hash_model="bytes"):
+    ex, cap = mk_executor(ctx, bl, nops, maxlit, hash_model)
     config_field_order(ctx, ex)
     B = deltalib.sym_bytes(ex, "B", bl)
     verify = ex.fresh_bool("verify_checksum") if engine == "sync" else z3.BoolVal(True)
-    d, M = sym_delta(ctx, ex, nops, maxlit, cap)
+    d, M = sym_delta(ctx, ex, nops, maxlit, cap, hash_model)
     st = State()
     res, ready = run_patch(ctx, ex, engine, engine_value(verify), VSeq(B, I(0), I(bl), "u8"), d, st)
     ex.exit_guards.append(st.guard)
@@ -119,9 +126,12 @@ def c05_obligations(ctx, R, prover, engine, bl, nops, maxlit):
     goals = {
         "success=>output-is-what-the-ops-describe": z3.Implies(ok, seq_eq(out.arr, out.len, earr, elen, cap)),
         "success=>no-read-outside-the-basis": z3.Implies(ok, inside),
-        "success=>output-hashes-to-delta.checksum": z3.Implies(z3.And(ok, verify),
-                                                               seq_eq(out.arr, out.len, M["carr"], M["clen"], cap + 1)),
     }
+    if hash_model == "ideal":
+        goals["success=>output-hashes-to-delta.checksum"] = z3.Implies(z3.And(ok, verify), seq_eq(out.arr, out.len, M["carr"], M["clen"], cap + 1))
+    else:
+        hb = patchmodels.hash_bytes(ex, VSeq(out.arr, out.off, out.len, "u8"))
+        goals["success=>output-hashes-to-delta.checksum"] = z3.Implies(z3.And(ok, verify), z3.And(*[h.t == c for h, c in zip(hb.f, M["cbytes"])]))
     if engine == "async":
         goals["future-completes"] = ready
     covers = {"success-reachable": ok, "error-reachable": z3.Not(ok)}
@@ -149,6 +159,20 @@ def c05_obligations(ctx, R, prover, engine, bl, nops, maxlit):
         pre = [model_int(model, z3.Select(M["carr"], j)) % 256 for j in range(min(clen, cap + 1))]
         delta = {"block_size": model_int(model, M["f"]["block_size"].t), "source_size": model_int(model, M["f"]["source_size"].t),
                  "basis_size": model_int(model, M["f"]["basis_size"].t), "ops": ops, "checksum": "00" * 32, "checksum_of": pre}
+        if hash_model == "bytes":
+            # checksum := real BLAKE3 of what the ops describe, with exactly those bytes altered where the model's
+            # checksum differs from the model's hash of the output
+            outv = []
+            for o in ops:
+                if "copy" in o:
+                    a, l = o["copy"]
+                    outv += basis[a:a + l] if (l and a + l <= len(basis)) else []
+                else:
+                    outv += o["lit"]
+            hbm = patchmodels.hash_bytes(ex, VSeq(out.arr, out.off, out.len, "u8"))
+            flips = [i for i in range(32) if model_int(model, hbm.f[i].t) != model_int(model, M["cbytes"][i])]
+            delta["checksum_of"] = outv
+            delta["checksum_flip"] = flips
         v = model_bool(model, verify) if engine == "sync" else True
         case = {"fn": "patch", "engine": engine, "basis": basis, "delta": delta, "verify": v}
         if any("copy" in o and o["copy"][1] > (1 << 24) for o in ops):
